@@ -19,7 +19,7 @@ numeric cell of the active buffer equal those of a newly made calculator moved t
 What the statement leaves open is accepted both ways: a value-less rule over edges with different values may
 settle anywhere between them; a value outside new bounds may be kept or clipped; a refused operation may leave
 either nothing or the part accepted before the refusal in force; after a *cancelled* calculator step the
-calculator may stand at the previous vector or (when the step began by undoing) at the one before -- it only has
+calculator may stand at the previous vector or (when the step began by undoing) at an earlier one -- it only has
 to be a working calculator at the vector it reports.  Which exception type refuses an operation is not checked.
 
 A case is JSON: {"cfg": [model, ntips], "ops": [...]} / {"cfg":..., "setup": [...], "mode":..., "steps": [...]}.
@@ -838,17 +838,18 @@ def run_calculator(case):
             return ("raises-differently", f"step {n} vector {t.tolist()}: history-laden calculator -> {raised!r}, "
                                           f"new calculator -> {ref_raised!r}")
         if raised is not None:
-            # the step is cancelled.  Where the calculator then stands is left open (the previous vector, or the one
-            # before when the step started by undoing): wherever it says it is, it has to be a working calculator
-            # there.  The vector it reports is taken as its setting from here on.
+            # the step is cancelled.  Where the calculator then stands is left open (the previous vector, or an
+            # earlier one when the step started by undoing): wherever it says it is, it has to be a working
+            # calculator there.  The vector it reports is taken as its setting from here on.
             what = "after-cancelled-step"
             t = numpy.array(calc.get_value_array(), float)
-            allowed = hist[-2:]
-            if not any(numpy.allclose(t, a, rtol=1e-12, atol=1e-12) for a in allowed):
+            # (undoing goes back to the vector before the last accepted change list, itself possibly reached by
+            # undoing: always a vector the calculator stood at earlier)
+            if not any(numpy.allclose(t, a, rtol=1e-12, atol=1e-12) for a in hist):
                 return ("cancelled-step-not-rolled-back",
                         f"step {n} (to {target.tolist()}) was refused with {type(raised).__name__}; the calculator now "
-                        f"reports the vector {t.tolist()}, which is neither the previous vector {cur.tolist()} nor the "
-                        f"one before")
+                        f"reports the vector {t.tolist()}, which is neither the previous vector {cur.tolist()} nor any "
+                        f"vector it stood at before")
             ref = lf.make_calculator()
             try:
                 ref_val = ref.testoptparvector(t.copy())
